@@ -1171,6 +1171,7 @@ func (tr *FnCtx) call(st *State, c *ssa.CallCommon, instr ssa.Instruction, mode 
 			tr.note("call of injected function field " + fname + ": assumed not to modify modelled state")
 			tr.callbackCalls = append(tr.callbackCalls, "field "+fname)
 			r := fresh("cbf")
+			tr.resolveDynamicCall(st, c, args, r)
 			return r
 		}
 		tr.note("call of unknown function value " + c.Value.Name() + " (everything havocked)")
@@ -1396,6 +1397,61 @@ func (tr *FnCtx) applyContract(st *State, f *ssa.Function, spec *FuncSpec, metho
 		}
 	}
 	return res
+}
+
+// resolveDynamicCall: a call through a function value v. For every package-level function g of the same package with an
+// identical signature, a contract and `modifies nothing`: if v == g, the call is a call of g, so g's preconditions are
+// obligations (under that guard) and g's postconditions hold for the result (under that guard). Nothing is assumed for
+// other values of v (the result stays unconstrained).
+func (tr *FnCtx) resolveDynamicCall(st *State, c *ssa.CallCommon, args []*Val, r *Val) {
+	sig, ok := c.Value.Type().Underlying().(*types.Signature)
+	if !ok || tr.Fn == nil || tr.Fn.Pkg == nil {
+		return
+	}
+	v := tr.val(c.Value).one()
+	var names []string
+	for n := range tr.Fn.Pkg.Members {
+		names = append(names, n)
+	}
+	sort.Strings(names)
+	for _, n := range names {
+		g, ok := tr.Fn.Pkg.Members[n].(*ssa.Function)
+		if !ok || g.Signature.Recv() != nil || !types.Identical(g.Signature, sig) {
+			continue
+		}
+		spec := tr.W.C.Funcs[pkgKey(g.Pkg.Pkg.Path(), fnRelName(g))]
+		if spec == nil || !spec.HasMod || len(spec.Modifies) != 0 || spec.Trusted {
+			continue
+		}
+		guard := eq(v, tr.fnConst(g))
+		vars := map[string]*Val{}
+		for i, p := range g.Params {
+			if i < len(args) {
+				vars[p.Name()] = &Val{T: p.Type(), A: args[i].A, Loc: args[i].Loc, Clos: args[i].Clos}
+			}
+		}
+		env := &Env{tr: tr, vars: vars, st: st, old: st, pkg: g.Pkg.Pkg, allocOld: tr.cur(st, compAlloc)}
+		tr.callCount["dyn:"+g.Name()]++
+		k := tr.callCount["dyn:"+g.Name()]
+		for _, cl := range spec.Requires {
+			tr.oblige(fmt.Sprintf("%s/call-pre[%s.%s]#dyn%d", tr.Short, g.Name(), cl.Label, k), "call-pre", implies(guard, tr.evalClause(env, cl)), cl.Src+" (dynamic call resolved to "+g.Name()+")")
+		}
+		post := &Env{tr: tr, vars: map[string]*Val{}, st: st, old: st, pkg: g.Pkg.Pkg, allocOld: tr.cur(st, compAlloc), assuming: true}
+		for kk, vv := range vars {
+			post.vars[kk] = vv
+		}
+		if g.Signature.Results().Len() == 1 {
+			rv := &Val{T: g.Signature.Results().At(0).Type(), A: r.A}
+			post.vars["res"] = rv
+			if rn := resultNames(g); len(rn) == 1 {
+				post.vars[rn[0]] = rv
+			}
+		}
+		for _, cl := range spec.Ensures {
+			tr.assume(implies(guard, tr.evalClause(post, cl)))
+		}
+		tr.note("dynamic call of field/function value resolved against the contract of " + g.Name() + " (guarded by value equality)")
+	}
 }
 
 func stripIface(v ssa.Value) ssa.Value {
